@@ -10,11 +10,18 @@ run = open("%s/demo%s/RUN.md" % (out, n)).read()
 install, demo = [], None
 for ln in run.split("\n"):
     c = re.sub(r"\s+#.*$", "", ln.strip())
-    if re.match(r"(mkdir|cp) ", c):
+    if re.match(r"(mkdir|cp) ", c) or (re.match(r"(printf|echo) ", c) and ">>" in c):
+        if c.startswith("cp "):
+            # a relative source is relative to the demo directory (where RUN.md lives)
+            parts = c.split()
+            for i in range(1, len(parts) - 1):
+                if not parts[i].startswith(("/", "-", "$")) and os.path.exists(os.path.join(out, "demo%s" % n, parts[i])):
+                    parts[i] = os.path.join(out, "demo%s" % n, parts[i])
+            c = " ".join(parts)
         install.append(c)
     elif re.search(r"(^|\s)cargo (test|run) ", c) and "--workspace" not in c and demo is None:
         demo = c[c.index("cargo "):]
-env = dict(os.environ, CARGO_TARGET_DIR="%s/%s-target" % (BASE, cid), CARGO_NET_OFFLINE="true", RUST_BACKTRACE="0")
+env = dict(os.environ, CARGO_TARGET_DIR="%s/%s-target" % (BASE, cid), CARGO_NET_OFFLINE="true", RUST_BACKTRACE="0", W=wt, WT=wt, OUT=out)
 clean = "git checkout -q -- . && git clean -qfd"
 subprocess.run(clean, shell=True, cwd=wt)
 res = []
